@@ -533,7 +533,7 @@ class TimeSensitiveDensityEstimator(BaseEstimator):
                 "the results as 'landmarks' to speed up the process."
             )
         landmarks = compute_landmarks_rescale_time(
-            x, ls, ls_time, n_landmarks=n_landmarks
+            x, ls, ls_time, n_landmarks=n_landmarks, gp_type=self.gp_type
         )
         return landmarks
 
